@@ -1,5 +1,6 @@
 import Falcon.Lemmas.BabaiAlg
 import Falcon.Model.Zp
+import Falcon.Lemmas.ZpZMod
 
 /-!
 # C17 — Babai size reduction preserves the NTRU equation; the 32-bit path multiplies exactly
@@ -95,5 +96,99 @@ theorem balanced_lift_exact (x : Int) (h : -536877056 ≤ x ∧ x ≤ 536877056)
 /-! ### non-vacuity -/
 example : ntruLhs 2 [1, 2] [3, 1] [5, 7] [11, 13] = ntruLhs 2 [1, 2] [3, 1]
     (babaiStep 2 [1, 2] [3, 1] ([5, 7], [11, 13]) [2, -1]).1 (babaiStep 2 [1, 2] [3, 1] ([5, 7], [11, 13]) [2, -1]).2 := by decide
+
+/-! ### the 32-bit path multiplies exactly: NTT multiplication in Z_p[X]/(X^n+1) (the C11 development at p) -/
+
+section ZpNtt
+open Falcon.Zp
+
+private theorem inv_hyp (d : Nat) (hd : d ≤ 10) :
+    ∀ e, e < d → ∀ j, 1 * 2 ^ e ≤ j → j < (1 + 1) * 2 ^ e → T' j * TI' j = 1 := by
+  intro e he j _ h2
+  have hp : 2 ^ e ≤ 2 ^ 9 := Nat.pow_le_pow_right (by decide) (by omega)
+  exact T'_inv j (by omega)
+
+private theorem scale_back (d v : Nat) (hv : 2 ^ d * v % 1073754113 = 1) (l : List Fp) :
+    (l.map (((2 : Fp) ^ d) * ·)).map (· * c v) = l := by
+  have h1 : ((2 : Fp) ^ d) * c v = 1 := by
+    have : c (2 ^ d * v % 1073754113) = c 1 := by rw [hv]
+    rw [c_of_mod] at this
+    simpa [c] using this
+  rw [List.map_map]
+  conv_rhs => rw [← List.map_id l]
+  apply List.map_congr_left
+  intro x _
+  simp only [Function.comp, id]
+  calc (2 : Fp) ^ d * x * c v = x * ((2 : Fp) ^ d * c v) := by ring
+    _ = x := by rw [h1, mul_one]
+
+private theorem finish (d v : Nat) (X : List Nat) (want : List Nat)
+    (hw : ∀ x ∈ want, x < 1073754113)
+    (h : ((inttRec d 1 X).map (mul · v)).map c = want.map c) :
+    (inttRec d 1 X).map (mul · v) = want := by
+  apply map_c_inj _ _ _ hw h
+  intro x hx
+  simp only [List.mem_map] at hx
+  obtain ⟨y, _, rfl⟩ := hx
+  exact Nat.mod_lt _ (by decide)
+
+/-- **round trip in Z_p**: the inverse transform of the forward transform is the identity -/
+theorem zp_intt_ntt (d : Nat) (hd : d ≤ 10) (hd1 : 1 ≤ d) (a : List Nat) (hl : a.length = 2 ^ d) (hc : ∀ x ∈ a, x < 1073754113) :
+    intt d (ntt d a) = .ok a := by
+  obtain ⟨v, hv1, hv2, _⟩ := ninv_spec d hd hd1
+  have hlen : (nttRec d 1 a).length = 2 ^ d := nttRec_length d 1 a hl
+  have hv1' : List.lookup (2 ^ d) Gen.u32Ninv = some v := hv1
+  simp only [intt, ntt, hlen, hv1']
+  congr 1
+  apply finish d v _ a hc
+  rw [List.map_map]
+  have : (c ∘ fun x => mul x v) = (fun y => y * c v) ∘ c := by funext x; simp [c_mul]
+  rw [this, ← List.map_map, c_inttRec, c_nttRec,
+    NttG.intt_ntt T' TI' d 1 (a.map c) (by simpa using hl) (inv_hyp d hd), scale_back d v hv2]
+
+/-- **multiplication in Z_p**: the inverse transform of the pointwise product of the transforms is the
+    negacyclic product a ⋆ b in Z_p[X]/(X^n+1), p = 1073754113 (the field of `babai_reduce_i32`) -/
+theorem zp_ntt_mul_exact (d : Nat) (hd : d ≤ 10) (hd1 : 1 ≤ d) (a b : List Nat)
+    (hla : a.length = 2 ^ d) (hlb : b.length = 2 ^ d) :
+    intt d (hadamard (ntt d a) (ntt d b)) = .ok (negacyc (2 ^ d) a b) := by
+  obtain ⟨v, hv1, hv2, _⟩ := ninv_spec d hd hd1
+  have hA : (a.map c).length = 2 ^ d := by simpa using hla
+  have hB : (b.map c).length = 2 ^ d := by simpa using hlb
+  have hna := nttRec_length d 1 a hla
+  have hnb := nttRec_length d 1 b hlb
+  have hlen : (hadamard (nttRec d 1 a) (nttRec d 1 b)).length = 2 ^ d := by
+    simp [hadamard, List.length_zipWith, hna, hnb]
+  have hv1' : List.lookup (2 ^ d) Gen.u32Ninv = some v := hv1
+  simp only [intt, ntt, hlen, hv1']
+  congr 1
+  apply finish d v _ _ (negacyc_lt _ a b)
+  have hn : 0 < 2 ^ d := Nat.pow_pos (by decide)
+  have hT := tableOK d hd
+  -- the transform of the product
+  have key : (hadamard (nttRec d 1 a) (nttRec d 1 b)).map c =
+      NttG.nttRec T' d 1 (NttG.negacyc (2 ^ d) (a.map c) (b.map c)) := by
+    rw [hadamard_c, c_nttRec, c_nttRec,
+      NttG.ntt_eq_eval T' d 1 _ (le_refl 1) hT hA, NttG.ntt_eq_eval T' d 1 _ (le_refl 1) hT hB,
+      zipWith_mul_map,
+      NttG.ntt_eq_eval T' d 1 _ (le_refl 1) hT (NttG.negacyc_length (2 ^ d) hn _ _ hB)]
+    apply List.map_congr_left
+    intro ρ hρ
+    have hp := NttG.roots_pow T' d 1 (le_refl 1) hT ρ hρ
+    have hc1 : NttG.cst T' 1 = -1 := by simp [NttG.cst]
+    rw [hc1] at hp
+    exact (NttG.evalL_negacyc (2 ^ d) hn ρ hp _ _ hB).symm
+  rw [List.map_map]
+  have : (c ∘ fun x => mul x v) = (fun y => y * c v) ∘ c := by funext x; simp [c_mul]
+  rw [this, ← List.map_map, c_inttRec, key,
+    NttG.intt_ntt T' TI' d 1 _ (NttG.negacyc_length (2 ^ d) hn _ _ hB) (inv_hyp d hd),
+    scale_back d v hv2, c_negacyc]
+
+
+/-- hence the products k⋆f, k⋆g that `babai_reduce_i32` forms through the Z_p transform are the exact integer
+    products whenever their coefficients are below p/2 in magnitude (`balanced_lift_exact`): the residue vector is
+    the negacyclic product mod p, and the balanced lift of a residue of x with |x| ≤ 536877056 is x -/
+example : Zp.intt 1 (Zp.hadamard (Zp.ntt 1 [3, 5]) (Zp.ntt 1 [7, 11])) = .ok (Zp.negacyc 2 [3, 5] [7, 11]) := by decide
+
+end ZpNtt
 
 end Falcon.Props.C17
